@@ -113,6 +113,9 @@ info('C04',
       'algorithm-level equivalence (DMRG/TEBD in both configurations): not compared'],
      [A_BUILD])
 info('C05',
+     'P: the factorisations derived from svd / qr, in a free matrix algebra with svd / qr / tensordot abstract: polar (both sides), pinv and lq '
+     'return the textbook terms built from the values the leaves returned, options and inner labels passed through, input unmodified; '
+     'in-place operations on a factor that is used again are detected (contracts/c_factor.py). '
      'B (bounded, not proof): run-time contracts of svd (reduced), qr/lq (all modes/options), eigh/eigvalsh/eig, expm, pinv, polar (left and right), '
      'orthogonal_columns, and of tools.math.speigs/speigsh in their dense branch, on '
      'generated rank-2 tensors over all enumerated charge structures incl. rank-deficient, missing and zero blocks, non-blocked '
@@ -120,7 +123,9 @@ info('C05',
      'Moore-Penrose identities, a = u p / a = p u with p Hermitian positive semi-definite, isometric completion orthogonal to the input, '
      'the min(k, d) extreme eigenvalues, sanity and truthful claims of the factors, requested total charges, contractible inner leg, '
      'inner_qconj; both configurations.',
-     ['LAPACK numerics; the charge/leg bookkeeping of qr/_svd_worker as deductive obligations is not built (bounded only)',
+     ['LAPACK numerics; svd, qr, eigh, eig, expm, orthogonal_columns themselves (charge / leg bookkeeping on 2-D numpy data): bounded only; '
+      'that the terms proved for polar / pinv multiply back to the input follows on paper from the *assumed* svd contract '
+      '(a = W s VH, isometric W and VH) - the bounded check tests those identities numerically',
       'svd(full_matrices=True): known finding F-25, excluded from the bounded domain'],
      [A_BUILD], configs=BOTH)
 info('C06',
